@@ -1,170 +1,84 @@
 /-
-C15 helper lemmas, part 2: which documents the operations emit; every descriptor held in
-`_descriptors` has been emitted (`DInv`); the exact shape of what `save` emits.
+C15 helper lemmas, part 2: every descriptor held in `_descriptors` has been emitted (`DInv`, from the
+generated relation frame `KeepsDocs`); the exact shape of what `save` emits.
 -/
 import BlueskyVerif.Lemmas.C15Bundle
-import BlueskyVerif.Lemmas.BundlerKeepsDesc
+import BlueskyVerif.Lemmas.BundlerKeepsDocs
+import BlueskyVerif.Lemmas.BundlerKeepsOutDesc
 
 namespace BlueskyVerif.Bundler
 open Generated
+open KeepsDocs (Documented)
 
-/-- a descriptor document for `(n, d)` is among `docs` -/
-def Documented (docs : List Doc) (n : Name) (d : Desc) : Prop :=
-  ∃ doc ∈ docs, doc.kind = .descriptor ∧ doc.uid = d.uid ∧ doc.stream = some n ∧ doc.keys = d.keys ∧
-    doc.extKeys = d.ext
+/-- every descriptor held by the bundler has been emitted -/
+def DInv (s : BState) : Prop := ∀ nd ∈ s.descriptors, Documented s.out nd.1 nd.2
 
-theorem Documented.mono {docs docs' : List Doc} {n : Name} {d : Desc} (h : Documented docs n d)
-    (hs : ∀ x ∈ docs, x ∈ docs') : Documented docs' n d := by
-  obtain ⟨doc, hm, hr⟩ := h
-  exact ⟨doc, hs doc hm, hr⟩
+theorem DInv_of_keeps {w : World} {s s' : BState} (hk : KeepsDocs.Keeps w s s') (h : DInv s) : DInv s' := by
+  obtain ⟨new, ho, hd⟩ := hk
+  intro nd hm
+  rcases hd nd hm with h1 | h1
+  · exact (h nd h1).mono (by intro x hx; rw [ho]; simp; exact Or.inl hx)
+  · exact h1.mono (by intro x hx; rw [ho]; simp; exact Or.inr hx)
 
-/-- every descriptor in the result state was already there or is documented by this very result -/
-def DRel (s : BState) (r : Res) : Prop :=
-  ∀ nd ∈ r.st.descriptors, nd ∈ s.descriptors ∨ Documented r.docs nd.1 nd.2
+theorem DInv_step (w : World) (s : BState) (op : Op) (h : DInv s) : DInv (step w s op).st :=
+  DInv_of_keeps (KeepsDocs.keeps_step w s op (by cases op <;> rfl)) h
 
-theorem DRel_of_eq (s : BState) (r : Res) (h : r.st.descriptors = s.descriptors) : DRel s r := by
-  intro nd hm; rw [h] at hm; exact Or.inl hm
+theorem DInv_run (w : World) (s : BState) (ops : List Op) (h : DInv s) : DInv (runState w s ops) := by
+  induction ops generalizing s with
+  | nil => exact h
+  | cons op ops ih => exact ih _ (DInv_step w s op h)
 
-theorem DRel_andThen (s : BState) (r : Res) (f : BState → Res) (h1 : DRel s r) (h2 : ∀ s', DRel s' (f s')) :
-    DRel s (r.andThen f) := by
-  cases he : r.err with
-  | some e => rw [Res.andThen_of_err _ _ _ he]; exact h1
-  | none =>
-    rw [Res.andThen_of_ok _ _ he]
-    intro nd hm
-    rcases h2 r.st nd hm with h | h
-    · rcases h1 nd h with h | h
-      · exact Or.inl h
-      · exact Or.inr (h.mono (by intro x hx; simp; exact Or.inl hx))
-    · exact Or.inr (h.mono (by intro x hx; simp; exact Or.inr hx))
+/-- the output of a step extends the output before it -/
+theorem out_grows (w : World) (s : BState) (op : Op) : ∃ new, (step w s op).st.out = s.out ++ new := by
+  obtain ⟨new, h, _⟩ := KeepsDocs.keeps_step w s op (by cases op <;> rfl)
+  exact ⟨new, h⟩
 
-theorem DRel_foldl {α : Type} (l : List α) (g : BState → α → Res) (s : BState) (r : Res) (h0 : DRel s r)
-    (hg : ∀ s' a, DRel s' (g s' a)) : DRel s (l.foldl (fun (r : Res) a => r.andThen fun s' => g s' a) r) := by
-  induction l generalizing r with
-  | nil => exact h0
-  | cons a t ih => exact ih _ (DRel_andThen s r _ h0 (fun s' => hg s' a))
+theorem out_run (w : World) (s : BState) (ops : List Op) : ∃ new, (runState w s ops).out = s.out ++ new := by
+  induction ops generalizing s with
+  | nil => exact ⟨[], by simp [runState]⟩
+  | cons op ops ih =>
+    obtain ⟨n1, h1⟩ := out_grows w s op
+    obtain ⟨n2, h2⟩ := ih (step w s op).st
+    exact ⟨n1 ++ n2, by simp only [runState]; rw [h2, h1, List.append_assoc]⟩
 
-/-! ### documents of the primitives -/
+theorem openRun_descriptors (cfg : BCfg) (u : Nat) (env : List (Obj × Config)) :
+    (openRun cfg u env).descriptors = [] := by
+  unfold openRun
+  simp only [openRunResets, if_true, resetCp]
+  split <;> rfl
 
-theorem cacheReadConfig_docs (w : World) (s : BState) (o : Obj) : (cacheReadConfig w s o).docs = [] := by
-  unfold cacheReadConfig; split <;> rfl
+theorem openRun_bundling (cfg : BCfg) (u : Nat) (env : List (Obj × Config)) :
+    (openRun cfg u env).bundling = false ∧ (openRun cfg u env).describeCache = [] := by
+  unfold openRun
+  simp only [openRunResets, if_true, resetCp]
+  split <;> exact ⟨rfl, rfl⟩
 
-theorem cacheDescribeConfig_docs (w : World) (s : BState) (o : Obj) : (cacheDescribeConfig w s o).docs = [] := by
-  unfold cacheDescribeConfig; split <;> rfl
-
-theorem andThen_docs_nil (r : Res) (f : BState → Res) (h1 : r.docs = []) (h2 : ∀ s, (f s).docs = []) :
-    (r.andThen f).docs = [] := by
-  rw [Res.andThen_docs, h1]; split <;> simp [h2]
-
-theorem ensureCached_docs (w : World) (s : BState) (o : Obj) (c : Bool) : (ensureCached w s o c).docs = [] := by
-  unfold ensureCached
-  apply andThen_docs_nil
-  · unfold cacheDescribe
-    repeat' split
-    all_goals rfl
-  · intro s'
-    unfold cacheConfig
-    split
-    · exact andThen_docs_nil _ _ (cacheDescribeConfig_docs ..) (fun s => cacheReadConfig_docs ..)
-    · rfl
-
-theorem ensureAll_docs (w : World) (s : BState) (objs : List Obj) (c : Bool) : (ensureAll w s objs c).docs = [] := by
-  unfold ensureAll
-  have : ∀ (l : List Obj) (r : Res), r.docs = [] →
-      (l.foldl (fun (r : Res) o => r.andThen fun s => ensureCached w s o c) r).docs = [] := by
-    intro l
-    induction l with
-    | nil => intro r h; exact h
-    | cons a t ih =>
-      intro r h
-      apply ih
-      rw [Res.andThen_docs, h]
-      split <;> simp [ensureCached_docs]
-  exact this objs _ rfl
-
-theorem prepareStream_docs_kind (w : World) (s : BState) (n : Name) (od : List (Obj × List Key)) :
-    ∀ d ∈ (prepareStream w s n od).docs, d.kind = .descriptor := by
-  unfold prepareStream
-  simp only
-  split
-  · simp
-  · split
-    · split
-      · simp
-      · unfold prepareStream.finish; simp
-    · unfold prepareStream.finish; simp
-
-theorem DRel_prepareStream (w : World) (s : BState) (n : Name) (od : List (Obj × List Key)) :
-    DRel s (prepareStream w s n od) := by
-  unfold prepareStream
-  simp only
-  have fin : ∀ (s0 : BState) (uid : Nat) (dk : List Key) (cfg : List (Obj × CfgBlock)) (pre : List CEv),
-      s0.descriptors = s.descriptors → DRel s (prepareStream.finish w n od s0 uid dk cfg pre) := by
-    intro s0 uid dk cfg pre h0
-    unfold prepareStream.finish
-    intro nd hm
-    simp only at hm
-    have hm' : nd ∈ aset s0.descriptors n { uid := uid, keys := dk, objs := od, ext := externalKeys w od, config := cfg } := by
-      split at hm <;> exact hm
-    rcases mem_aset _ _ _ _ hm' with h | h
-    · exact Or.inl (h0 ▸ h)
-    · refine Or.inr ⟨_, List.mem_singleton.2 rfl, ?_⟩
-      subst h
-      exact ⟨rfl, rfl, rfl, rfl, rfl⟩
-  split
-  · exact DRel_of_eq _ _ rfl
-  · split
-    · split
-      · exact DRel_of_eq _ _ rfl
-      · exact fin _ _ _ _ _ rfl
-    · exact fin _ _ _ _ _ rfl
-
-theorem composeEvent_docs (s : BState) (n : Name) (u : Nat) (dk ext : List Key) (data : List (Key × Val))
+/-- what `ComposeEvent` + emit does to the output -/
+theorem composeEvent_out (s : BState) (n : Name) (u : Nat) (dk ext : List Key) (data : List (Key × Val))
     (src : Src) (note : Option String) :
-    (composeEvent s n u dk ext data src note).docs = [] ∨
-    ∃ e, (composeEvent s n u dk ext data src note).docs = [e] ∧ e.kind = .event ∧ e.src = src ∧
+    ((composeEvent s n u dk ext data src note).st.out = s.out ∧ (composeEvent s n u dk ext data src note).err ≠ none) ∨
+    ∃ e, (composeEvent s n u dk ext data src note).st.out = s.out ++ [e] ∧ e.kind = .event ∧ e.src = src ∧
       e.stream = some n ∧ e.descriptor = some u ∧ e.data = data ∧ e.keys = data.map Prod.fst ∧
       e.seq = aget s.seq n ∧
       sameSet (nonStream ext dk) (nonStream ext (data.map Prod.fst)) = true ∧
       (composeEvent s n u dk ext data src note).err = none := by
   unfold composeEvent
   split
-  · exact Or.inl rfl
+  · exact Or.inl ⟨rfl, by simp⟩
   · rename_i c hc
-    simp only
     split
-    · exact Or.inl rfl
+    · exact Or.inl ⟨rfl, by simp⟩
     · split
-      · exact Or.inl rfl
+      · exact Or.inl ⟨rfl, by simp⟩
       · rename_i h1 h2
         refine Or.inr ⟨_, rfl, rfl, rfl, rfl, rfl, rfl, rfl, by simp [hc], ?_, rfl⟩
         simpa using h2
 
-theorem saveDescriptor_docs_kind (w : World) (s : BState) (n : Name) (objs : List Obj) :
-    ∀ d ∈ (saveDescriptor w s n objs).docs, d.kind = .descriptor := by
-  unfold saveDescriptor
-  split
-  · intro d hd
-    rw [Res.andThen_docs, ensureAll_docs] at hd
-    split at hd
-    · simp at hd
-    · exact prepareStream_docs_kind _ _ _ _ d (by simpa using hd)
-  · split <;> simp
-
-theorem DRel_saveDescriptor (w : World) (s : BState) (n : Name) (objs : List Obj) :
-    DRel s (saveDescriptor w s n objs) := by
-  unfold saveDescriptor
-  split
-  · apply DRel_andThen
-    · exact DRel_of_eq _ _ (KeepsDesc.keeps_ensureAll w s objs false)
-    · intro s'; exact DRel_prepareStream w s' n _
-  · split <;> exact DRel_of_eq _ _ rfl
-
-/-- what `save` emits: possibly the descriptor(s) of a new stream, then at most one event, which is
+/-- what `save` emits: possibly the descriptor of a new stream, then at most one event, which is
     built from exactly the cached readings and references a descriptor that is either already in
     `_descriptors` or among the documents just emitted before it -/
 theorem save_spec (w : World) (s : BState) :
-    ∃ (pre ev : List Doc), (save w s).docs = pre ++ ev ∧ (∀ d ∈ pre, d.kind = .descriptor) ∧
+    ∃ (pre ev : List Doc), (save w s).st.out = s.out ++ (pre ++ ev) ∧ (∀ d ∈ pre, d.kind = .descriptor) ∧
       (ev = [] ∨ ∃ e n d, ev = [e] ∧ s.bundling = true ∧ s.objsRead ≠ [] ∧ s.bundleName = some n ∧
         e.kind = .event ∧ e.src = .bundle ∧ e.stream = some n ∧ e.descriptor = some d.uid ∧
         e.data = mergeReadings s.readCache ∧ e.keys = (mergeReadings s.readCache).map Prod.fst ∧
@@ -172,160 +86,49 @@ theorem save_spec (w : World) (s : BState) :
         ((n, d) ∈ s.descriptors ∨ Documented pre n d) ∧ (save w s).err = none) := by
   unfold save
   split
-  · exact ⟨[], [], rfl, by simp, Or.inl rfl⟩
+  · exact ⟨[], [], by simp, by simp, Or.inl rfl⟩
   · rename_i hb
     have hb' : s.bundling = true := by simpa using hb
     split
-    · exact ⟨[], [], rfl, by simp, Or.inl rfl⟩
+    · refine ⟨[], [], ?_, by simp, Or.inl rfl⟩
+      simp only [Res.ok_st]; split <;> simp
     · rename_i hne
       have hne' : s.objsRead ≠ [] := by
         intro h; apply hne; simp [saveEmptyReturnsEarly, h]
       split
-      · exact ⟨[], [], rfl, by simp, Or.inl rfl⟩
+      · exact ⟨[], [], by simp, by simp, Or.inl rfl⟩
       · rename_i n hn
         generalize hr : saveDescriptor w { s with bundling := false, bundleName := none } n s.objsRead = r
-        have hkind : ∀ d ∈ r.docs, d.kind = .descriptor := by
-          subst hr; exact saveDescriptor_docs_kind _ _ _ _
-        have hrel : DRel s r := by
+        obtain ⟨pre, hpre, hkind⟩ : ∃ pre, r.st.out = s.out ++ pre ∧ ∀ d ∈ pre, d.kind = .descriptor := by
           subst hr
-          have := DRel_saveDescriptor w { s with bundling := false, bundleName := none } n s.objsRead
-          exact this
+          exact KeepsOutDesc.keeps_saveDescriptor w { s with bundling := false, bundleName := none } n s.objsRead
+        have hrel : ∀ nd ∈ r.st.descriptors, nd ∈ s.descriptors ∨ Documented pre nd.1 nd.2 := by
+          subst hr
+          obtain ⟨new, ho, hd⟩ :=
+            KeepsDocs.keeps_saveDescriptor w { s with bundling := false, bundleName := none } n s.objsRead
+          have : new = pre := by
+            have := ho.symm.trans hpre
+            exact List.append_cancel_left this
+          subst this
+          exact hd
         cases he : r.err with
         | some e =>
           rw [Res.andThen_of_err _ _ _ he]
-          exact ⟨r.docs, [], by simp, hkind, Or.inl rfl⟩
+          exact ⟨pre, [], by simpa using hpre, hkind, Or.inl rfl⟩
         | none =>
           rw [Res.andThen_of_ok _ _ he]
           simp only
           unfold saveEvent
           cases hd : aget r.st.descriptors n with
-          | none => exact ⟨r.docs, [], by simp, hkind, Or.inl rfl⟩
+          | none => exact ⟨pre, [], by simpa using hpre, hkind, Or.inl rfl⟩
           | some d =>
             simp only
-            rcases composeEvent_docs r.st n d.uid d.keys d.ext (mergeReadings s.readCache) .bundle none with h | h
-            · exact ⟨r.docs, [], by simp [h], hkind, Or.inl rfl⟩
+            rcases composeEvent_out r.st n d.uid d.keys d.ext (mergeReadings s.readCache) .bundle none with h | h
+            · exact ⟨pre, [], by rw [h.1]; simpa using hpre, hkind, Or.inl rfl⟩
             · obtain ⟨e, h1, h2, h3, h4, h5, h6, h7, _, h9, h10⟩ := h
-              refine ⟨r.docs, [e], by simp [h1], hkind, Or.inr ⟨e, n, d, rfl, hb', hne', hn, h2, h3, h4, h5, h6, h7, ?_, ?_, h10⟩⟩
+              refine ⟨pre, [e], by rw [h1, hpre, List.append_assoc], hkind,
+                Or.inr ⟨e, n, d, rfl, hb', hne', hn, h2, h3, h4, h5, h6, h7, ?_, ?_, h10⟩⟩
               · rw [h7]; exact h9
               · exact hrel (n, d) (aget_mem _ _ _ hd)
-
-/-! ### `DRel` for every operation, and the history invariant -/
-
-theorem DRel_save (w : World) (s : BState) : DRel s (save w s) := by
-  unfold save
-  split
-  · exact DRel_of_eq _ _ rfl
-  · split
-    · split <;> exact DRel_of_eq _ _ rfl
-    · split
-      · exact DRel_of_eq _ _ rfl
-      · rename_i n hn
-        have h1 := DRel_saveDescriptor w { s with bundling := false, bundleName := none } n s.objsRead
-        have : DRel { s with bundling := false, bundleName := none }
-            ((saveDescriptor w { s with bundling := false, bundleName := none } n s.objsRead).andThen fun s' =>
-              saveEvent s' n (mergeReadings s.readCache)) :=
-          DRel_andThen _ _ _ h1 (fun s' => DRel_of_eq _ _ (KeepsDesc.keeps_saveEvent w s' n _))
-        exact this
-
-theorem DRel_monitor (w : World) (s : BState) (o : Obj) (n : Name) : DRel s (monitor w s o n) := by
-  unfold monitor
-  split
-  · exact DRel_of_eq _ _ rfl
-  · apply DRel_andThen
-    · exact DRel_of_eq _ _ (KeepsDesc.keeps_ensureCached w s o false)
-    · intro s'
-      apply DRel_andThen
-      · exact DRel_prepareStream w s' n _
-      · intro s''
-        split <;> exact DRel_of_eq _ _ rfl
-
-theorem DRel_reprepareAll (w : World) (s : BState) (o : Obj) : DRel s (reprepareAll w s o) := by
-  unfold reprepareAll
-  apply DRel_foldl (g := fun s'' (nd : Name × Desc) =>
-    match aget s''.descriptors nd.1 with
-    | none => Res.fail s'' .keyError
-    | some d =>
-      if ahas d.objs o then
-        prepareStream w { s'' with descriptors := aerase s''.descriptors nd.1 } nd.1 d.objs
-      else Res.ok s'')
-  · exact DRel_of_eq _ _ rfl
-  · intro s'' nd
-    split
-    · exact DRel_of_eq _ _ rfl
-    · split
-      · intro x hx
-        rcases DRel_prepareStream w { s'' with descriptors := aerase s''.descriptors nd.1 } nd.1 _ x hx with h | h
-        · exact Or.inl (mem_aerase _ _ _ h)
-        · exact Or.inr h
-      · exact DRel_of_eq _ _ rfl
-
-theorem DRel_configure (w : World) (s : BState) (o : Obj) : DRel s (configure w s o) := by
-  unfold configure
-  apply DRel_andThen
-  · exact DRel_of_eq _ _ (KeepsDesc.keeps_cacheReadConfig w s o)
-  · intro s'; exact DRel_reprepareAll w s' o
-
-theorem DRel_declareStream (w : World) (s : BState) (n : Name) (objs : List Obj) (c : Bool) :
-    DRel s (declareStream w s n objs c) := by
-  unfold declareStream
-  simp only
-  apply DRel_andThen
-  · exact DRel_of_eq _ _ (KeepsDesc.keeps_ensureAll w s _ c)
-  · intro s'
-    split
-    · exact DRel_of_eq _ _ rfl
-    · intro x hx
-      exact DRel_prepareStream w { s' with declared := declareAppend s'.declared (dedupKeys objs) n } n _ x hx
-
-theorem DRel_step (w : World) (s : BState) (op : Op) : DRel s (step w s op) := by
-  by_cases h : KeepsDesc.touches op = false
-  · exact DRel_of_eq _ _ (KeepsDesc.keeps_step w s op h)
-  · cases op <;> simp [KeepsDesc.touches] at h <;> simp only [step]
-    · exact DRel_save w s
-    · exact DRel_monitor w s _ _
-    · exact DRel_configure w s _
-    · exact DRel_declareStream w s _ _ _
-
-/-- every descriptor held by the bundler has been emitted -/
-def DInv (s : BState) (docs : List Doc) : Prop := ∀ nd ∈ s.descriptors, Documented docs nd.1 nd.2
-
-theorem DInv_step (w : World) (s : BState) (docs : List Doc) (op : Op) (h : DInv s docs) :
-    DInv (step w s op).st (docs ++ (step w s op).docs) := by
-  intro nd hm
-  rcases DRel_step w s op nd hm with h1 | h1
-  · exact (h nd h1).mono (by intro x hx; simp; exact Or.inl hx)
-  · exact h1.mono (by intro x hx; simp; exact Or.inr hx)
-
-theorem runFrom_append_docs (w : World) (s : BState) (pre post : List Op) :
-    traceDocs (runFrom w s (pre ++ post)).2 =
-      traceDocs (runFrom w s pre).2 ++ traceDocs (runFrom w (runFrom w s pre).1 post).2 := by
-  induction pre generalizing s with
-  | nil => simp [runFrom, traceDocs]
-  | cons op ops ih =>
-    simp only [List.cons_append, runFrom, traceDocs, List.flatMap_cons]
-    have := ih (step w s op).st
-    simp only [traceDocs] at this
-    rw [this, List.append_assoc]
-
-theorem runFrom_append_fst (w : World) (s : BState) (pre post : List Op) :
-    (runFrom w s (pre ++ post)).1 = (runFrom w (runFrom w s pre).1 post).1 := by
-  induction pre generalizing s with
-  | nil => simp [runFrom]
-  | cons op ops ih => simp only [List.cons_append, runFrom]; exact ih _
-
-theorem DInv_run (w : World) (s : BState) (docs : List Doc) (ops : List Op) (h : DInv s docs) :
-    DInv (runFrom w s ops).1 (docs ++ traceDocs (runFrom w s ops).2) := by
-  induction ops generalizing s docs with
-  | nil => simpa [runFrom, traceDocs] using h
-  | cons op ops ih =>
-    simp only [runFrom, traceDocs, List.flatMap_cons]
-    have := ih _ _ (DInv_step w s docs op h)
-    simp only [traceDocs] at this
-    rw [← List.append_assoc]; exact this
-
-theorem openRun_descriptors (cfg : BCfg) (u : Nat) (env : List (Obj × Config)) :
-    (openRun cfg u env).st.descriptors = [] := by
-  cases h2 : cfg.recordInterruptions <;>
-    simp [openRun, Res.andThen, resetR, Res.pure, resetCp, Res.ok, openRunResets, h2]
 
 end BlueskyVerif.Bundler
